@@ -126,9 +126,111 @@ mod verif_c16_sort {
 """
 
 
+TREE = "src/entry/tree.rs"
+
+CMP_SPEC = r"""
+use core::cmp::Ordering;
+pub assume_specification [core::cmp::Ordering::is_ne] (o: Ordering) -> (r: bool) ensures r == !(o is Equal);
+pub assume_specification [core::cmp::Ordering::is_eq] (o: Ordering) -> (r: bool) ensures r == (o is Equal);
+
+// a tree node and the three keys the comparator reads, all uninterpreted
+#[verifier::external_body] pub struct EntryTree { _p: core::marker::PhantomData<()> }
+#[verifier::external_body] pub struct LocKey { _p: core::marker::PhantomData<()> }
+pub uninterp spec fn addr_of(t: EntryTree) -> Option<usize>;       // address of the entry / group behind the node, if any
+pub uninterp spec fn kind_of(t: EntryTree) -> i32;                 // benchmarks (0) before groups (1)
+pub uninterp spec fn name_cmp(a: EntryTree, b: EntryTree) -> Ordering;   // natural order of display names / constants' own order
+pub uninterp spec fn loc_key(t: EntryTree) -> LocKey;
+pub uninterp spec fn lk_cmp(a: LocKey, b: LocKey) -> Ordering;           // file, line, column
+pub open spec fn loc_cmp(a: EntryTree, b: EntryTree) -> Ordering { lk_cmp(loc_key(a), loc_key(b)) }
+impl LocKey {
+    #[verifier::external_body]
+    pub fn cmp(&self, other: &LocKey) -> (r: Ordering) ensures r == lk_cmp(*self, *other) { unimplemented!() }
+}
+impl EntryTree {
+    #[verifier::external_body] pub fn entry_addr(&self) -> (r: Option<usize>) ensures r == addr_of(*self) { unimplemented!() }
+    #[verifier::external_body] pub fn kind(&self) -> (r: i32) ensures r == kind_of(*self) { unimplemented!() }
+    #[verifier::external_body] pub fn cmp_display_name(&self, other: &Self) -> (r: Ordering) ensures r == name_cmp(*self, *other) { unimplemented!() }
+    #[verifier::external_body] pub fn location(&self) -> (r: LocKey) ensures r == loc_key(*self) { unimplemented!() }
+}
+
+pub open spec fn int_cmp(a: int, b: int) -> Ordering { if a < b { Ordering::Less } else if a == b { Ordering::Equal } else { Ordering::Greater } }
+pub open spec fn addr_ord(a: EntryTree, b: EntryTree) -> Option<Ordering> {
+    match (addr_of(a), addr_of(b)) { (Some(x), Some(y)) => Some(int_cmp(x as int, y as int)), _ => None }
+}
+// one sort key; a tie on location is broken by the address of the entries (declaration order of the
+// instantiations / arguments of one benchmark)
+pub open spec fn key(attr: SortingAttr, a: EntryTree, b: EntryTree) -> Ordering {
+    match attr {
+        SortingAttr::Kind => int_cmp(kind_of(a) as int, kind_of(b) as int),
+        SortingAttr::Name => name_cmp(a, b),
+        SortingAttr::Location => if loc_cmp(a, b) is Equal { match addr_ord(a, b) { Some(o) => o, None => Ordering::Equal } } else { loc_cmp(a, b) },
+    }
+}
+pub open spec fn tie_spec(attr: SortingAttr) -> Seq<SortingAttr> {
+    match attr {
+        SortingAttr::Kind => seq![SortingAttr::Kind, SortingAttr::Name, SortingAttr::Location],
+        SortingAttr::Name => seq![SortingAttr::Name, SortingAttr::Location, SortingAttr::Kind],
+        SortingAttr::Location => seq![SortingAttr::Location, SortingAttr::Kind, SortingAttr::Name],
+    }
+}
+pub open spec fn lex(keys: Seq<SortingAttr>, a: EntryTree, b: EntryTree, from: int) -> Ordering
+    decreases keys.len() - from,
+{
+    if from >= keys.len() { Ordering::Equal } else if !(key(keys[from], a, b) is Equal) { key(keys[from], a, b) } else { lex(keys, a, b, from + 1) }
+}
+// THE ORDER: the chosen attribute, then the other two as tie-breakers (same entry = Equal)
+pub open spec fn entry_order(attr: SortingAttr, a: EntryTree, b: EntryTree) -> Ordering {
+    if addr_ord(a, b) == Some(Ordering::Equal) { Ordering::Equal } else { lex(tie_spec(attr), a, b, 0) }
+}
+"""
+
+
+def cmp_file(S: Sources):
+    """EntryTree::cmp_by_attr for EVERY pair of nodes (unbounded): the documented lexicographic order with tie-breakers."""
+    from units.loop_common import pin
+    cf = S(CONFIG)
+    tr = S(TREE)
+    secs = []
+    secs.append(code_item(cf, cf.find_item("enum", "SortingAttr"), keep_attrs=("derive",),
+                          subst=[(r"#\[derive\([^\]]*\)\]", "#[derive(Clone, Copy)]", 1)]))
+    secs.append(ghost("C16 comparator spec and stand-ins", CMP_SPEC, kind="trusted"))
+    secs += wrap_impl("impl SortingAttr", [
+        code_fn(cf, cf.find_fn("with_tie_breakers", impl=r"impl SortingAttr\b"), "SortingAttr::with_tie_breakers", ret="r", pair=["verif_c16::tie_breakers"],
+                clauses="ensures r@ == tie_spec(self),"),
+    ])
+    f = tr.find_fn("cmp_by_attr", impl=r"impl<'a> EntryTree<'a>")
+    sec = code_fn(tr, f, "EntryTree::cmp_by_attr", ret="r",
+                  subst=[
+                      # Verus cannot iterate an array by value: index loop over the same array (header only)
+                      (r"for\s+attr\s+in\s+attr\s*\.\s*with_tie_breakers\(\)\s*\{",
+                       "let tie = attr0.with_tie_breakers(); let mut ti: usize = 0;\n        while ti < 3\n            invariant 0 <= ti <= 3, tie@ == tie_spec(attr0), ao == addr_ord(*self, *other), entry_addr_ordering == ao, !(ao == Some(Ordering::Equal)),\n                      lex(tie_spec(attr0), *self, *other, 0) == lex(tie_spec(attr0), *self, *other, ti as int),\n            decreases 3 - ti,\n        {\n            let attr = tie[ti]; ti = ti + 1;", 1),
+                  ],
+                  inserts=[(pin("if matches!(entry_addr_ordering, Some(Ordering::Equal)) {"), "before", "let ghost ao = addr_ord(*self, *other);", 1),
+                           (pin("if ordering.is_ne() {"), "before", """
+                               proof {
+                                   assert(attr == tie_spec(attr0)[ti as int - 1]);
+                                   assert(ordering == key(attr, *self, *other));
+                                   reveal_with_fuel(lex, 2);
+                               }
+                           """, 1, "hint")],
+                  # Verus resolves a postcondition's parameter names at each `return`, where the loop variable
+                  # shadows the parameter `attr`: the parameter is renamed attr0 (signature only; the body's
+                  # only use of the parameter is the loop header replaced above)
+                  sig_subst=[(r"\battr\s*:\s*SortingAttr", "attr0: SortingAttr", 1)],
+                  clauses="ensures r == entry_order(attr0, *self, *other),")
+    secs += wrap_impl("impl EntryTree", [sec])
+    import copy
+    csecs = copy.deepcopy(secs) + [ghost("canaries", """
+pub fn canary_cmp(a: &EntryTree, b: &EntryTree, attr: SortingAttr) { let o = a.cmp_by_attr(b, attr); assert(false); }
+""", kind="lemma")]
+    return [VerusFile("c16_cmp", secs), VerusFile("c16_cmp_canary", csecs, expect_fail=True)]
+
+
 def build(S: Sources) -> Unit:
     for f in (CONFIG, SORT):
         S(f)
+    errs = []
+    vfiles = guarded(lambda: cmp_file(S), errs, [])
     hs = [
         KaniHarness("verif_c16::int_arg_names_by_value", "bounded", bound="integer names of 1-2 digits with optional minus sign (every pair of different value)",
                     covers="SortingAttr::cmp_bench_arg_names (integer arguments, name and kind attributes)"),
@@ -139,13 +241,14 @@ def build(S: Sources) -> Unit:
     ]
     return Unit(
         property_id="C16",
-        verus=[],
+        build_errors=errs,
+        verus=vfiles,
         kani=KaniSpec(injections={CONFIG: KANI_CONFIG, SORT: KANI_SORT}, harnesses=hs, timeout_s=1500,
                       stubs_note=["<f64 as FromStr>::from_str -> always Err in the argument-name harnesses (dec2flt is outside CBMC's reach): float names are NOT covered",
                                   "util::sort::natural_cmp -> recorder in the argument-name harnesses (it must not be reached for integers of different value); natural_cmp itself is checked in the thorough tier"]),
         undecided_clauses=[
             "float and mixed integer/float argument names (str::parse::<f64> is far outside what CBMC decides in reasonable time)",
             "longer names, non-ASCII names, transitivity in general",
-            "the entry comparator EntryTree::cmp_by_attr (kind / name / location with address tie-break), generic constants' own ordering, --sortr as exact reverse, and that sorting only permutes (std sort)",
+            "the leaf comparisons below EntryTree::cmp_by_attr (EntryTree::kind, cmp_display_name, location, entry_addr: ASSUMED to return the node's kind / name order / (file,line,column) / address), generic constants' own ordering, --sortr as exact reverse, and that sorting only permutes (std sort)",
         ],
     )
